@@ -70,7 +70,7 @@ End Multi.
 
 (* C02 of the inner index for every code below the sentinel of the code type *)
 Theorem multi_inner_contract m points mu :
-  valid_mcfg m -> c_kt (m_cfg m) = mkK (m_tbits m) false -> idx_ok (m_cfg m) -> float_ok_all (m_cfg m) ->
+  valid_mcfg m -> c_kt (m_cfg m) = mkK (m_tbits m) false -> idx_ok (m_cfg m) -> float_ok_valid (m_cfg m) ->
   Forall (point_ok m) points -> points <> [] -> zlen points < 2 ^ 32 ->
   multi_build m points = Ok mu -> zlen (ix_segments (mu_ix mu)) < 2 ^ 32 ->
   forall q, q < sentinel (m_cfg m) -> exists lo hi,
@@ -81,7 +81,7 @@ Proof.
   intros Hv Hkt Hc Hf Hok Hne Hn32 Hb Hs32 q Hq.
   pose proof (codes_data_ok m points mu Hv Hkt Hok Hne Hn32 Hb) as Hd.
   destruct (multi_build_inv m points mu Hb) as [Hbd _].
-  destruct (search_contract (m_cfg m) (mu_data mu) (mu_ix mu) q Hc Hf Hd Hbd Hs32 Hq)
+  destruct (search_contract_valid (m_cfg m) (mu_data mu) (mu_ix mu) q Hc Hf Hd Hbd Hs32 Hq)
     as (a & Es & H1 & H2 & H3 & H4).
   exists (a_lo a), (a_hi a). unfold multi_range_of. rewrite Es. cbn [bind].
   replace ((a_lo a <? 0) || (a_hi a >? zlen (mu_data mu)) || (a_hi a <? a_lo a)) with false by lia.
@@ -93,7 +93,7 @@ Qed.
    code of a query point whose coordinates are all 2^field_bits - 1 is the sentinel itself when
    dims * field_bits = m_tbits). *)
 Theorem multi_index_end_to_end_partial m points mu :
-  valid_mcfg m -> c_kt (m_cfg m) = mkK (m_tbits m) false -> idx_ok (m_cfg m) -> float_ok_all (m_cfg m) ->
+  valid_mcfg m -> c_kt (m_cfg m) = mkK (m_tbits m) false -> idx_ok (m_cfg m) -> float_ok_valid (m_cfg m) ->
   Forall (point_ok m) points -> points <> [] -> zlen points < 2 ^ 32 ->
   multi_build m points = Ok mu -> zlen (ix_segments (mu_ix mu)) < 2 ^ 32 ->
   forall Hbeyond : (forall q, sentinel (m_cfg m) <= q -> exists lo hi, multi_range_of m mu q = Ok (lo, hi) /\ 0 <= lo /\
@@ -129,7 +129,7 @@ Qed.
 
 Theorem multi_index_end_to_end_partial' m points mu :
   valid_mcfg m -> c_kt (m_cfg m) = mkK (m_tbits m) false -> idx_ok (m_cfg m) -> cfg_small (m_cfg m) ->
-  float_ok_all (m_cfg m) ->
+  float_ok_valid (m_cfg m) ->
   Forall (point_ok m) points -> points <> [] -> zlen points <= 2 ^ 30 ->
   multi_build m points = Ok mu ->
   forall Hbeyond : (forall q, sentinel (m_cfg m) <= q -> exists lo hi, multi_range_of m mu q = Ok (lo, hi) /\ 0 <= lo /\
